@@ -900,7 +900,14 @@ class Variogram(object):
         the grouping index and fitting parameters
 
         """
-        if self._n_lags is None:
+        # binning methods that derive the number of lag classes themselves
+        # (e.g. 'sturges') report it together with the lag edges
+        name = getattr(self, '_bin_func_name', None)
+        derived = isinstance(name, str) and name.lower() not in (
+            'even', 'uniform', 'kmeans', 'ward', 'stable_entropy',
+            'custom_func', 'custom_bin_edges'
+        )
+        if self._n_lags is None or (derived and self._bins is None):
             self._n_lags = len(self.bins)
         return self._n_lags
 
